@@ -221,7 +221,7 @@ inductive Leaf
   independent oracle. -/
   | opaque (id : Nat) (dom : List V) (res : List Verdict)
   /-- `MatchesPredicate(predicate, message)` over a harness predicate (oracle table as for `opaque`); the
-  mismatch is built with `message % matchee`, `msg` says how many `%` conversions the message has -/
+  mismatch is built with `message % (matchee,)`, `msg` says how many `%` conversions the message has -/
   | predicate (id : Nat) (msg : MsgKind) (dom : List V) (res : List Verdict)
 deriving Repr
 
@@ -257,18 +257,9 @@ def lookupTbl (v : V) : List V → List Verdict → Verdict
 
 def excTypeMatches (cs : List ExcCls) (e : Exc) : Bool := cs.any (isSub e.cls)
 
-/-- does `message % matchee` raise `TypeError`?  A tuple matchee supplies one argument per member (an
-exc_info tuple has three); dicts, lists and bytes pass `PyMapping_Check` (usable by any message without
-conversions or with one); anything else is one argument. -/
-def mappingLike : V → Bool
-  | .dict _ _ => true
-  | .list _ => true
-  | .bytes _ => true
-  | _ => false
-def fmtErr (msg : MsgKind) (v : V) : Bool :=
-  match v with
-  | .exc _ true => true                       -- 3 arguments, no message kind here takes three
-  | _ => if mappingLike v then msg == .two else msg != .one
+/-- does `message % (matchee,)` raise `TypeError`?  The matchee is always passed as ONE argument (a
+tuple matchee too), so exactly the messages with one conversion format. -/
+def fmtErr (msg : MsgKind) : Bool := msg != .one
 
 def leafImpl : Leaf → V → Verdict
   | .equals e, v => .ofBool (veq v e)
@@ -306,7 +297,7 @@ def leafImpl : Leaf → V → Verdict
       | .inr e => if isUser e.cls then .match else .raised e.cls
   | .opaque _ dom res, v => lookupTbl v dom res
   | .predicate _ msg dom res, v => match lookupTbl v dom res with
-      | .mismatch => if fmtErr msg v then .raised .typeError else .mismatch    -- Mismatch(self.message % x)
+      | .mismatch => if fmtErr msg then .raised .typeError else .mismatch    -- Mismatch(self.message % (x,))
       | r => r
 
 /-! ## sequencing of already computed verdicts
